@@ -7,6 +7,7 @@ import (
 	"path/filepath"
 	"strings"
 	"testing"
+	"time"
 
 	"github.com/Vedant9500/WTF/internal/database"
 	"github.com/Vedant9500/WTF/verifharness/gen"
@@ -36,6 +37,92 @@ func init() {
 		fmt.Println(rankStr(rank(db, db.SearchUniversal(args[1], opt))))
 		fmt.Println(strings.Join(db.GetSuggestions(args[1], 5), "|"))
 		return 0
+	})
+}
+
+func init() {
+	// child: every query of a JSON file against one database file, one line per query
+	proc.RegisterHelper("c02batch", func(args []string) int {
+		if len(args) != 3 {
+			return 96
+		}
+		db, err := database.LoadDatabase(args[0])
+		data, err2 := os.ReadFile(args[1])
+		var qs []string
+		var opt database.SearchOptions
+		if err != nil || err2 != nil || json.Unmarshal(data, &qs) != nil || json.Unmarshal([]byte(args[2]), &opt) != nil {
+			return 96
+		}
+		for _, q := range qs {
+			fmt.Println(rankStr(rank(db, db.SearchUniversal(q, opt))))
+		}
+		return 0
+	})
+}
+
+// TestC02_ProcsBatch: whatever a process decides once - at package initialisation, on first use -
+// and then keeps for its lifetime (a word table inverted from a map, a lazily built lookup) is
+// invisible to repetition inside one process. Every word the language stage knows, in the
+// verb and in the object position, is therefore asked in six fresh processes.
+func TestC02_ProcsBatch(t *testing.T) {
+	rec := stat.For("C02")
+	rec.Rule("fresh-process batches: a database holding one entry per word of the language stage plus entries that name tools, actions and objects together; every such word as the first word of a query (followed by drawn object / tool words) and as its last word, NLP on, in 6 fresh processes and in this one. Oracle: identical ranked (index, score bits) lists everywhere. Non-trivial = the answer is non-empty.")
+	rapid.Check(t, func(t *rapid.T) {
+		cmds := gen.LanguagePack()
+		tools := []string{"docker", "pip", "apt", "git", "nginx", "npm", "systemctl", "ssh", "python", "node"}
+		acts := []string{"install", "config", "configure", "setup", "enable", "init", "create", "remove", "start", "show", "list", "build"}
+		for _, tl := range tools {
+			for _, a := range rapid.SliceOfNDistinct(rapid.SampledFrom(acts), 2, 5, rapid.ID[string]).Draw(t, "acts-"+tl) {
+				cmds = append(cmds, database.Command{Command: tl + " " + a + " " + rapid.SampledFrom([]string{"docker", "server", "files", "package", "service", "project"}).Draw(t, "obj"), Description: a + " " + tl + " things", Keywords: []string{a, tl}})
+			}
+		}
+		dir := mkdirWork("c02b-")
+		defer os.RemoveAll(dir)
+		dbp := filepath.Join(dir, "db.yml")
+		os.WriteFile(dbp, gen.EmitYAML(cmds), 0o644)
+		second := rapid.SliceOfN(rapid.SampledFrom(append(append([]string{}, tools...), "files", "server", "package", "service", "directory", "network")), 1, 2).Draw(t, "second-words")
+		var qs []string
+		for _, w := range gen.NLPWords {
+			if strings.ContainsAny(w, "<>|&;$") {
+				continue
+			}
+			qs = append(qs, w+" "+strings.Join(second, " "), "how to "+second[0]+" "+w)
+		}
+		qf := filepath.Join(dir, "queries.json")
+		enc, _ := json.Marshal(qs)
+		os.WriteFile(qf, enc, 0o644)
+		opt := database.SearchOptions{Limit: rapid.SampledFrom([]int{3, 5, 10}).Draw(t, "limit"), UseNLP: true, UseFuzzy: rapid.Bool().Draw(t, "fuzzy"), AllPlatforms: true}
+		oj, _ := json.Marshal(opt)
+		db, err := database.LoadDatabase(dbp)
+		if err != nil {
+			t.Fatalf("harness: %v", err)
+		}
+		var here []string
+		nonEmpty := 0
+		for _, q := range qs {
+			r := rank(db, db.SearchUniversal(q, opt))
+			if len(r) > 0 {
+				nonEmpty++
+			}
+			here = append(here, rankStr(r))
+		}
+		for p := 0; p < 6; p++ {
+			r := proc.Run(proc.Cmd{Helper: "c02batch", Args: []string{dbp, qf, string(oj)}, FSize: -1, Timeout: 170 * time.Second})
+			if r.ExitCode != 0 || r.TimedOut {
+				t.Fatalf("helper failed: exit %d timed-out %v %s", r.ExitCode, r.TimedOut, clip(r.Stderr))
+			}
+			lines := strings.Split(strings.TrimRight(r.Stdout, "\n"), "\n")
+			if len(lines) != len(qs) {
+				t.Fatalf("harness: helper printed %d lines for %d queries", len(lines), len(qs))
+			}
+			for i := range qs {
+				if lines[i] != here[i] {
+					saveCase("C02", "procs-batch", map[string]any{"test": "TestC02_ProcsBatch", "query": qs[i], "options": opt, "this_process": here[i], "fresh_process": lines[i], "process_no": p})
+					t.Fatalf("separate processes disagree for query %q (NLP on, options %s):\n this process : %s\n fresh process %d: %s", qs[i], oj, here[i], p, lines[i])
+				}
+			}
+		}
+		rec.Case(nonEmpty > 0, map[string]any{"cross_process_batch": true, "queries": len(qs), "non_empty": nonEmpty, "entries": len(cmds), "second_words": second, "options": optBrief(opt)}, "cross-process-batch")
 	})
 }
 
